@@ -571,3 +571,44 @@ theorem tool_parsers_match_source :
   decide +kernel
 
 end Cnfgen.C18
+
+namespace Cnfgen.C18
+open Cnfgen Cnfgen.IO Cnfgen.Cli.ToolArgs Cnfgen.Cli.Tools Cnfgen.ToolsL
+
+/-! ## non-vacuity of the hypotheses of `tool_never_escapes_cnfshuffle_partial` -/
+
+example (s : IO.Str) : Readable (demoEnv (.text s)) := ⟨by simp [demoEnv], by simp [demoEnv]⟩
+
+example (s : IO.Str) : NoDashDashValue shuffleSpec (demoEnv (.text s)) ["-q", "--no-p", "-vc"] := by
+  intro st h
+  have : parse shuffleSpec (act (demoEnv (.text s))) ["-q", "--no-p", "-vc"] {} =
+      .ok { verbose := false, noFlips := true, noVperm := true, noCperm := true } := rfl
+  rw [this] at h; cases h
+  exact ⟨by simp, by simp⟩
+
+/-- with the three switches on the command line the only legal draw list is the empty one, for whatever is read -/
+example (s : IO.Str) : AllLegal (demoEnv (.text s)) ["-p", "-v", "-c"] [] := by
+  intro st s' u n F hp _ _
+  have : parse shuffleSpec (act (demoEnv (.text s))) ["-p", "-v", "-c"] {} =
+      .ok { noFlips := true, noVperm := true, noCperm := true } := rfl
+  rw [this] at hp; cases hp
+  exact ⟨List.replicate F.nvars 1, Shuffle.iota 1 F.nvars, Shuffle.iota 0 F.clauses.length,
+    [], [], [], rfl, ⟨rfl, rfl⟩, ⟨rfl, rfl⟩, ⟨rfl, rfl⟩⟩
+
+/-- … and so the theorem applies: a clean end for every text on standard input -/
+example (s : IO.Str) : Clean (cnfshuffleRun (demoEnv (.text s)) ["-p", "-v", "-c"] []) := by
+  apply tool_never_escapes_cnfshuffle_partial
+  · intro st h
+    have : parse shuffleSpec (act (demoEnv (.text s))) ["-p", "-v", "-c"] {} =
+        .ok { noFlips := true, noVperm := true, noCperm := true } := rfl
+    rw [this] at h; cases h
+    exact ⟨by simp, by simp⟩
+  · exact ⟨by simp [demoEnv], by simp [demoEnv]⟩
+  · intro st s' u n F hp _ _
+    have : parse shuffleSpec (act (demoEnv (.text s))) ["-p", "-v", "-c"] {} =
+        .ok { noFlips := true, noVperm := true, noCperm := true } := rfl
+    rw [this] at hp; cases hp
+    exact ⟨List.replicate F.nvars 1, Shuffle.iota 1 F.nvars, Shuffle.iota 0 F.clauses.length,
+      [], [], [], rfl, ⟨rfl, rfl⟩, ⟨rfl, rfl⟩, ⟨rfl, rfl⟩⟩
+
+end Cnfgen.C18
